@@ -42,6 +42,10 @@ structure Cfg where
   H : Hier
   tyRank : Ty → Nat
   hRank : Nat → Nat
+  /-- tag of `type(c)` (the metaclass) of class `c` (only the dependent-dispatch generator looks at it) -/
+  metaOf : Nat → Nat := fun _ => 0
+  /-- `T.check(value)` of a `FuncDependentType`: user conditions and built-in value types are parameters -/
+  chk : Nat → List (Option Nat) → Nat → Tri := fun _ _ _ => .raises
 
 /-- what a dict entry of the table is: a registered handler, or a generated dependent dispatcher over
     the handlers of one rank that falls through to the entry of the next rank (`noNext`: raises) -/
